@@ -18,6 +18,7 @@ def main(argv=None) -> int:
     import shutil
     import tempfile
 
+    core._stack_dump_on_usr1()
     root = tempfile.mkdtemp(prefix="verif_run_")
     os.environ["TMPDIR"] = root
     tempfile.tempdir = root
@@ -63,7 +64,12 @@ def _main(argv=None) -> int:
     if args.replay:
         with open(args.replay) as f:
             doc = json.load(f)
-        vs = mod.replay(doc["case"])
+        if isinstance(doc["case"], dict) and doc["case"].get("kind") == "envgrid":
+            from mc import envgrid
+
+            vs = envgrid.replay(mod, doc["case"])
+        else:
+            vs = mod.replay(doc["case"])
         for v in vs:
             print(f"  violation sig={v.sig}: {v.msg}"[:4000])
         if vs:
@@ -73,6 +79,14 @@ def _main(argv=None) -> int:
         return 0
     try:
         res = mod.check(args.tier, args.seed)
+        if hasattr(mod, "env_cases"):
+            from mc import envgrid
+
+            cov, vs = envgrid.run(mod, args.tier)
+            for v in vs:
+                v.case["tier"] = args.tier
+            res.coverage["environment_grid"] = cov
+            res.violations.extend(vs)
     except Exception:
         traceback.print_exc()
         print(f"[{prop}] harness error (not a verdict)")
